@@ -158,6 +158,9 @@ func (e *Engine) loopHeader(fr *Frame, h *ssa.BasicBlock, st *State) *State {
 		}
 		sortStrings(names)
 		for _, name := range names {
+			if e.knownWritten != nil && !e.knownWritten[name] {
+				continue // no instruction of this function (or of its inlined callees) writes this map
+			}
 			srt := e.vc.heapSort[name]
 			pre := e.heapGet(st, name, srt)
 			nh := e.vc.declare("HL_"+name, srt)
